@@ -232,6 +232,13 @@ def strIsDflt (f : FieldDesc) (v : Val) : Bool :=
   | .str _ _ => false
   | _ => f.dflt == .none          -- zeroed storage is a NULL pointer
 
+/-- a string pointer that is neither NULL nor `field->default_value` -/
+def strSet (v : Val) : Bool :=
+  match v with
+  | .str .own _ => true
+  | .str .empty _ => true
+  | _ => false
+
 def binDataNull (v : Val) : Bool := match v with | .bin _ .null _ => true | .bin _ _ _ => false | _ => true
 def binDataDflt (v : Val) : Bool := match v with | .bin _ .dflt _ => true | _ => false
 
@@ -239,9 +246,10 @@ mutual
 /-- `merge_messages(earlier, latter)`; `none` = returns FALSE -/
 def mergeMsg (S : Schema) : Nat → Msg → Msg → Option Msg
   | 0, _, _ => none
-  | fuel+1, .mk _ es _, .mk ty ls lu =>
+  | fuel+1, .mk _ es eu, .mk ty ls lu =>
     let fields := (S.msg ty).fields
-    (mergeFields S fuel fields fields.length 0 es ls).map (fun ls' => .mk ty ls' lu)
+    -- unknown fields of the earlier occurrence come first, in arrival order
+    (mergeFields S fuel fields fields.length 0 es ls).map (fun ls' => .mk ty ls' (eu ++ lu))
 
 /-- the `for (i = 0; i < n_fields; i++)` loop; `k` = iterations left -/
 def mergeFields (S : Schema) (fuel : Nat) (fields : List FieldDesc) : Nat → Nat → List Slot → List Slot → Option (List Slot)
@@ -265,9 +273,11 @@ def mergeFields (S : Schema) (fuel : Nat) (fields : List FieldDesc) : Nat → Na
       let sel : Option (Option Nat) :=          -- none = return FALSE; some none = continue
         if fi.isOneof then
           if lcase == 0 then
-            match lookupField fields ecase with
-            | none => none
-            | some j => some (some j)
+            if ecase == 0 then some none          -- unset in both: nothing to merge
+            else match lookupField fields ecase with
+              | none => none
+              | some j => some (some j)
+          else if lcase == ecase && fi.id == lcase && fi.type == .message then some (some i)
           else some none
         else some (some i)
       match sel with
@@ -288,10 +298,14 @@ def mergeFields (S : Schema) (fuel : Nat) (fields : List FieldDesc) : Nat → Na
             | .msg (some _), _ => some (true, ls)
             | _, _ => some (false, ls)
           | .bytes =>
+            if f.hasQ then some (ecase != 0 && lcase == 0, ls)     -- has_ member / oneof case decides
+            else
             some ((!binDataNull ev && (f.dflt == .none || !binDataDflt ev)) &&
                   (binDataNull lv || (f.dflt != .none && binDataDflt lv)), ls)
-          | .string => some (!strIsDflt f ev && strIsDflt f lv, ls)
-          | _ => some (ecase != 0 && lcase == 0, ls)
+          | .string => some (strSet ev && !strSet lv, ls)
+          | t =>
+            if fi.label == .none && !fi.isOneof then some (!zeroish t ev && zeroish t lv, ls)
+            else some (ecase != 0 && lcase == 0, ls)
         match step with
         | none => none
         | some (false, ls1) => next es ls1
@@ -355,7 +369,7 @@ def parseMember (S : Schema) (fuel : Nat) (fields : List FieldDesc) (sm : Scanne
         | some g =>
           let q := (getSlot slots i).q
           let cleared : Option (List Slot) :=
-            if q != 0 then
+            if q != 0 && !(q == sm.tag && f.type == .message) then
               match lookupField fields q with
               | none => none
               | some _ => some (zeroGroup g fields slots)
